@@ -247,6 +247,7 @@ static std::string case_json(const Case& c) {
 
 // ---------------------------------------------------------------- comparison
 static bool g_strict = false;   // defects space: known defects are reported
+static bool g_reuse = true;     // also parse a fixed good document on a long-lived parser after every case
 static bool g_leak = false;     // leak space
 static bool g_leak_selftest = false;
 static int g_napi = 3;          // 0 XercesDOMParser, 1 DOMLSParser, 2 XIncludeDOMDocumentProcessor
@@ -408,6 +409,52 @@ static void evaluate(const Case& cs, Ctx& c) {
             c.violation("api-mismatch", "\"input\":" + case_json(cs) + ",\"dom\":" + jstr(joinv(o[0].lines, "  ") + " ## " + joinv(o[0].errors, " ;; ") + " ## " + o[0].exc) +
                                             ",\"ls\":" + jstr(joinv(o[1].lines, "  ") + " ## " + joinv(o[1].errors, " ;; ") + " ## " + o[1].exc));
         else c.count("apis_agree");
+    }
+    // ---- history: one long-lived parser per API parses the case document (its parse may be stopped by a fatal error: the XercesDOMParser has
+    // no error handler and throws, the DOMLSParser's handler answers false) and then a fixed well-behaved document with includes; the second
+    // result must be what a fresh parser gives for that document
+    if (g_reuse) {
+        static const char* GOOD = "<g " XI "><xi:include href='gs/gp.xml'/><m/><xi:include href='gt.txt' parse='text'/><xi:include href='nope.xml'><xi:fallback><f/></xi:fallback></xi:include></g>";
+        auto putGood = [&]() { g_vfs->put("/v/good.xml", GOOD); g_vfs->put("/v/gs/gp.xml", "<p><q/>one</p>"); g_vfs->put("/v/gt.txt", "a < b & c"); };
+        putGood();
+        static std::string want[2];
+        for (int api = 0; api < 2; api++) {
+            if (want[api].empty()) { XOut f = run_xerces(api == 0 ? 0 : 1, "/v/good.xml"); want[api] = joinv(filter_lines(f.lines), "\n") + "#" + joinv(f.bases, " ") + "#" + joinv(f.errors, ";") + "#" + f.exc; }
+            XOut second; std::string firstEnd;
+            g_guard->opens = 0; g_guard->tripped = false;
+            try {
+                if (api == 0) {
+                    static XercesDOMParser* P = nullptr;
+                    if (!P) { P = new XercesDOMParser(); P->setDoNamespaces(true); P->setDoXInclude(true); }
+                    P->setErrorHandler(nullptr);
+                    try { P->parse(X16("/v/a.xml").p()); firstEnd = "completed"; } catch (const SAXParseException&) { firstEnd = "stopped by SAXParseException"; } catch (const XMLException&) { firstEnd = "stopped by XMLException"; } catch (const DOMException&) { firstEnd = "stopped by DOMException"; }
+                    ErrH h; h.o = &second; P->setErrorHandler(&h);
+                    P->parse(X16("/v/good.xml").p());
+                    harvest(P->getDocument(), second);
+                    P->setErrorHandler(nullptr);
+                } else {
+                    static DOMLSParser* P = nullptr;
+                    static const XMLCh ls[] = {'L', 'S', 0};
+                    if (!P) { P = ((DOMImplementationLS*)DOMImplementationRegistry::getDOMImplementation(ls))->createLSParser(DOMImplementationLS::MODE_SYNCHRONOUS, 0);
+                              P->getDomConfig()->setParameter(XMLUni::fgDOMNamespaces, true); P->getDomConfig()->setParameter(XMLUni::fgXercesDoXInclude, true); }
+                    struct StopH : public DOMErrorHandler { bool handleError(const DOMError& e) override { return e.getSeverity() != DOMError::DOM_SEVERITY_FATAL_ERROR; } } stop;
+                    P->getDomConfig()->setParameter(XMLUni::fgDOMErrorHandler, &stop);
+                    try { P->parseURI(X16("/v/a.xml").p()); firstEnd = "completed"; } catch (const DOMLSException&) { firstEnd = "stopped by DOMLSException"; } catch (const XMLException&) { firstEnd = "stopped by XMLException"; } catch (const DOMException&) { firstEnd = "stopped by DOMException"; }
+                    DErrH eh; eh.o = &second; P->getDomConfig()->setParameter(XMLUni::fgDOMErrorHandler, &eh);
+                    harvest(P->parseURI(X16("/v/good.xml").p()), second);
+                    P->getDomConfig()->setParameter(XMLUni::fgDOMErrorHandler, (void*)nullptr);
+                }
+            }
+            catch (const XMLException& e) { second.exc = std::string("XMLException:") + esc16(e.getMessage()); }
+            catch (const SAXException& e) { second.exc = std::string("SAXException:") + esc16(e.getMessage()); }
+            catch (const DOMException& e) { second.exc = std::string("DOMException:") + std::to_string((int)e.code); }
+            catch (...) { second.exc = "FOREIGN:unknown"; }
+            if (g_guard->tripped) { c.count("reuse_skipped_runaway_first_parse"); continue; }
+            std::string got = joinv(filter_lines(second.lines), "\n") + "#" + joinv(second.bases, " ") + "#" + joinv(second.errors, ";") + "#" + second.exc;
+            c.count("reused_parser_checks"); c.count("reused_parser_first_parse:" + firstEnd);
+            if (got != want[api])
+                c.violation("parser-reuse-after-case", "\"api\":" + jstr(api == 0 ? "XercesDOMParser (reused)" : "DOMLSParser (reused)") + ",\"first_parse\":" + jstr(firstEnd) + ",\"expected\":" + jstr(want[api].substr(0, 400)) + ",\"observed\":" + jstr(got.substr(0, 400)) + ",\"input\":" + case_json(cs));
+        }
     }
     if (c.verbose) {
         printf("---- case %s\n", cs.label.c_str());
@@ -637,6 +684,7 @@ int main(int argc, char** argv) {
     }
     if (a.has("strict")) g_strict = a.num("strict") != 0;
     g_napi = (int)a.num("apis", 3);
+    g_reuse = a.num("reuse", 1) != 0 && !g_leak;
     if (a.has("open-budget")) g_guard->budget = (uint64_t)a.num("open-budget");
     if (a.has("list-defects")) { for (auto& d : KNOWN_DEFECTS) printf("%s: %s\n", d.id, d.what); return 0; }
     R.fn = run_case;
